@@ -422,13 +422,14 @@ def check_dom(progs, callers_establish=None):
 
 def _call_precedes(g, first_short, then_id):
     """In g's body a call named first_short precedes (statement order) every call to function id then_id."""
+    order = A.eval_order(g.get('body') or {}, g.get('inits'))
+    calls = sorted([n for n in walk(g.get('body') or {}) if n.get('k') == 'call' and id(n) in order], key=lambda n: order[id(n)])
     seen_first = False
-    for n in walk(g.get('body') or {}):
-        if n.get('k') == 'call':
-            if A.cshort(n) == first_short:
-                seen_first = True
-            if n.get('fn') == then_id and not seen_first:
-                return False
+    for n in calls:
+        if A.cshort(n) == first_short:
+            seen_first = True
+        if n.get('fn') == then_id and not seen_first:
+            return False
     return seen_first
 
 
